@@ -314,17 +314,18 @@ var c16CredTimeouts int32 // consecutive handshake cases that ended in a time-ou
 func c16CredCheck(t vh.Fataler, rec *vh.Rec, c c16CredCase) {
 	classes := []string{"mut-" + c.Mut, "path-" + c.Path, fmt.Sprintf("secret-len-%d", len(c.Secret))}
 	key, msg := c16CredPure(c)
+	path := c.Path
+	if path != "none" && atomic.LoadInt32(&c16CredTimeouts) >= 3 {
+		// handshakes keep timing out in this process: stop spending the budget on them
+		classes = append(classes, "handshake-skipped-after-repeated-timeouts")
+		path = "none"
+	}
 	inconclusive := false
-	if key == "" {
+	if key == "" && path != "none" {
 		var cl map[string]bool
-		if atomic.LoadInt32(&c16CredTimeouts) >= 3 && c.Path != "none" {
-			// handshakes keep timing out in this process: stop spending the budget on them
-			classes = append(classes, "handshake-skipped-after-repeated-timeouts")
-			c.Path = "none"
-		}
 		key, msg, cl = c16Timed(c16Stalled, func() (string, string, map[string]bool) {
 			var k, m string
-			switch c.Path {
+			switch path {
 			case "udp":
 				k, m = c16CredUDP(c)
 			case "pipe":
@@ -338,17 +339,18 @@ func c16CredCheck(t vh.Fataler, rec *vh.Rec, c c16CredCase) {
 		if cl["inconclusive-timeout"] || cl["inconclusive"] {
 			atomic.AddInt32(&c16CredTimeouts, 1)
 			inconclusive = true
-		} else if c.Path != "none" {
+		} else {
 			atomic.StoreInt32(&c16CredTimeouts, 0)
 		}
 	}
-	if key == "" && c.Path != "none" && !inconclusive {
+	hs := key == "" && path != "none" && !inconclusive
+	if hs {
 		classes = append(classes, "handshake-completed")
 		if !bytes.Equal(c.Secret, c.Other) {
 			classes = append(classes, "mismatch-refused")
 		}
 	}
-	rec.Case(c.Path != "none" && !inconclusive && !bytes.Equal(c.Secret, c.Other), vh.Digest(c), c, classes...)
+	rec.Case(hs && !bytes.Equal(c.Secret, c.Other), vh.Digest(c), c, classes...)
 	if key == "harness" {
 		t.Fatalf("harness problem: %s", msg)
 	}
